@@ -59,7 +59,10 @@ class C19Groundwater(Monitor):
         self.wt = int(m._param_struct.water_table)
         prof = m._param_struct.Soil.Profile
         self.stale_mid = np.array(prof.zMid, dtype=float, copy=True)
-        self.deepened = not np.allclose(self.stale_mid, self.g.zmid, atol=1e-9)
+        # "deepened" is a fact about the THICKNESSES (the model's differ from the ones the user gave), not about the mid-depths the
+        # model happens to hold - otherwise any defect that corrupts zMid would be filed under the known finding F11
+        user_dz = np.round(np.array((ctx.spec.get("soil") or {}).get("dz") or [0.1] * 12, dtype=float), 2)
+        self.deepened = not (len(user_dz) == self.g.ncomp and np.allclose(user_dz, self.g.dz, atol=1e-9))
         if self.deepened:
             ctx.hit("deepened_profile")
         gw = ctx.spec.get("gw")
